@@ -19,6 +19,24 @@ CHECKS = {
 CHECKS["C01"]=dict(level="exploration", design="DESIGN.md §3 C01", technique="runtime monitoring: differential oracle (REF-LINEAR sequential run of the real executors) over recorded tier1 streams, host-call logs and decoded cache files of generated packages x request sequences x PRNG job-completion orders",
    text="Held on every generated package x request sequence explored: the in-process tier1/tier2 cluster (real scheduler, squasher, walker, linear pipeline, real module hashes, real files) returned exactly the payloads of the sequential reference, every store read of every module execution anywhere returned the reference value, the stores handed to the linear phase and every cache file left behind decode to the reference content.",
    note="Trusts REF-LINEAR assembly and the native module runtime (wazero not exercised); fork-free chain; wall-clock is used only to explore completion orders and in the stuck watchdog, never in a verdict on values.")
+CHECKS["C04"]=dict(level="exploration", design="DESIGN.md §3 C04", technique="runtime monitoring: online stream-clause checker (ordering, exactly-once, range, cursor) over recorded tier1 streams + differential resumption from every k-th final-block cursor on the same and on an empty cache",
+   text="Every recorded stream of the generated requests satisfied the ordering / exactly-once / range / cursor clauses, and every request resumed from the cursor of a delivered final block resolved to the next block and delivered exactly the non-empty messages that followed in the original stream.",
+   note="Payload expectations come from REF-LINEAR; fork-free chain; only final-block cursors, as the property states.")
+CHECKS["C06"]=dict(level="exploration", design="DESIGN.md §3 C06", technique="runtime monitoring: metamorphic oracle on real module hashes (single-field mutations must change exactly {m} U descendants(m); identity-preserving transformations incl. alias import through manifest.NewReader must change nothing); cross-process determinism",
+   text="For every generated graph, every module and every single-field mutation the set of changed hashes equalled the module and its descendants (own reachability), and rename / alias import / unrelated additions / binary re-indexing left every hash unchanged; all worker processes agreed on the reference hashes.",
+   note="Descendants computed by the harness' own reachability; one recorded known finding (input order of same-kind inputs is not hashed).")
+CHECKS["C10"]=dict(level="exploration", design="DESIGN.md §3 C10", technique="runtime monitoring: round-trip oracle on real FullKV/PartialKV Save/Load through local and in-memory dstore, listing oracle (superset rule) on really saved snapshots; workload repeated under checkptr and ASan builds",
+   text="All generated store contents (binary keys/values, empty values, up to 5000 entries, deleted prefixes) came back identical with exact SizeBytes; every saved snapshot ending at or below the bound was listed with the right range and kind; no temp or foreign file was listed; no checkptr/ASan report.",
+   note="A superset listing is accepted as the code also returns snapshots that merely start below; a clean sanitizer run is absence of reports on the inputs tried.")
+CHECKS["C13"]=dict(level="exploration", design="DESIGN.md §3 C13", technique="runtime monitoring by exhaustive enumeration of the stated finite domain against an independently written block-by-block tiling (set arithmetic oracle)",
+   text="Exhaustive over segment size 1..16, initial 0..64, end up to 96 and all indexes (quick) / sizes to 32, blocks to 200 (thorough): tiling, alignment, index lookup, out-of-range behaviour, Split and Merged preserve the covered set.",
+   note="The oracle walks blocks one by one; assumptions on what 'designates' means are listed in the evidence.")
+CHECKS["C14"]=dict(level="exploration", design="DESIGN.md §3 C14", technique="runtime monitoring: invariant checker over exec.NewOutputModuleGraph staging of generated valid graphs x every output module, own reachability as oracle, watchdog for termination",
+   text="For every generated valid graph and every output module: each needed module in exactly one layer strictly after everything it reads, unneeded modules absent, layers homogeneous, store layers close stages, an input exists at every initial block, and staging terminated.",
+   note="Validity = generator rules + the code's own validators accept; hangs judged by a watchdog with re-run (inconclusive unless reproduced).")
+CHECKS["C18"]=dict(level="exploration", design="DESIGN.md §3 C18", technique="runtime monitoring: cross-codec differential (fast hand-written codec vs protobuf runtime / vtproto) on generated messages; workload repeated under checkptr and ASan builds",
+   text="On all generated cached-output maps and store contents the fast encoder's bytes decoded with the standard decoder to the same content and vice versa, every marshaller read back what it wrote, and reported sizes were exact; no checkptr/ASan report.",
+   note="Cross-decoder directions use valid UTF-8 (schema restriction of protobuf string); sanitizer silence is not memory safety.")
 NOT_YET = {}
 def main():
     checks=[]
